@@ -96,16 +96,16 @@ def start_watchdog(prop, tier, seed, t0):
     import threading
     budget = float(os.environ.get('VERIF_BUDGET_S', '1800' if tier == 'quick' else '28800'))
 
-    def expired():
+    def expired(reason=None):
         path = os.path.join(common.ROOT, 'replays', f'{prop}-{seed}-{int(time.time())}.json')
         os.makedirs(os.path.dirname(path), exist_ok=True)
         with open(path, 'w') as fh:
             json.dump(dict(property=prop, kind='budget-exceeded', tier=tier, seed=seed, budget_s=budget,
-                           broken=[{'kind': 'correspondence', 'what': f'the correspondence / monitor run of tier {tier} did not complete '
-                                    f'within {budget:.0f} s (it takes well under a tenth of that on the unchanged tree): the harness can no '
+                           broken=[{'kind': 'correspondence', 'what': reason or (f'the correspondence / monitor run of tier {tier} did not complete '
+                                    f'within {budget:.0f} s (it takes well under a tenth of that on the unchanged tree)') + ': the harness can no '
                                     'longer drive the code to completion'}]), fh, indent=1)
         rel = os.path.relpath(path, common.ROOT)
-        sys.stdout.write(f'{prop} {tier}: exploration did not complete within {budget:.0f} s\n'
+        sys.stdout.write(f'{prop} {tier}: ' + (reason or f'exploration did not complete within {budget:.0f} s') + '\n'
                          f'VIOLATION property={prop} replay={rel} no-failing-input-found\n')
         sys.stdout.flush()
         try:
@@ -121,6 +121,7 @@ def start_watchdog(prop, tier, seed, t0):
     t = threading.Timer(budget, expired)
     t.daemon = True
     t.start()
+    t.fire = expired
     return t
 
 
@@ -164,6 +165,7 @@ def main(argv):
     # 4. corpus + correspondence + monitors
     ctx = Ctx(prop, tier, seed, common.Model(model_ok))
     watchdog = start_watchdog(prop, tier, seed, t0)
+    ctx.give_up = watchdog.fire          # a harness that finds it cannot make progress reports so at once
     try:
         out = mod.run(ctx)
     except Exception:
